@@ -444,6 +444,10 @@ def error_discipline(ctx, prog):
                 good = False
                 ctx.violation('S-ENC.err', '%s|swallowed' % ty, 'a failed write (%s) is not reported: the impl returns Ok' % (evs[idx[0]][1],), where)
                 break
+            if o.kind == 'return' and l1.result_kind(o.value) == 'Err' and 'sink-error' not in repr(o.value):
+                good = False
+                ctx.violation('S-ENC.err', '%s|relabelled' % ty, 'a failed write (%s) is reported as another error (%r): the caller can no longer tell that the sink was full' % (evs[idx[0]][1], o.value.fields[0] if getattr(o.value, 'fields', None) else o.value), where)
+                break
         if good:
             ctx.ok('S-ENC.err', ty)
     ctx.floor('S-ENC.err', 'Encode impls', n, 80)
